@@ -653,7 +653,10 @@ func c20MakeGraph(t *testing.T, smallCaches bool) *graphdb.ChannelGraph {
 }
 
 const c20Rebroadcast = 24 * time.Hour
-const c20PruneInterval = time.Hour
+// not a multiple of the gossiper fixture's hourly tickers: with sqlite a retransmit
+// scan and the prune transaction starting at the same fake instant collide (busy
+// time-outs elapse instantly on the fake clock) and the prune tick is lost
+const c20PruneInterval = 61*time.Minute + 7*time.Second
 
 func c20b2i(b bool) int {
 	if b {
